@@ -297,9 +297,24 @@ Fixpoint next_bdry (st : state2) (fuel : nat) (x : N) : N :=
 Definition opt_Z_eqb (a c : option Z) : bool :=
   match a, c with Some x, Some y => Z.eqb x y | None, None => true | _, _ => false end.
 
+(* key of the stretch of boundary the boundary dart [x] belongs to: walking forward along the boundary from [d0], the
+   dart whose end vertex is a node (2x+1), or, when the walk comes back to [d0] without meeting a node, the smallest
+   dart of the loop (2m): two boundary darts lie between the same two consecutive nodes (or on the same loop without
+   node) iff their keys are equal *)
+Fixpoint stretch_key (st : state2) (len : nat) (fuel : nat) (d0 x mn : N) : N :=
+  match fuel with
+  | O => 2 * mn
+  | S f =>
+    let y := next_bdry st len (b st 1 x) in
+    if has_dim (anc st 4 (cid st PVertex y)) [0%Z] then 2 * x + 1
+    else if y =? d0 then 2 * mn
+    else stretch_key st len f d0 y (N.min mn y)
+  end.
+
 (* classes: 11 refused or crashed, 12 a cell without anchor, 13 a point of interest is not a node vertex,
    14 edge / face anchored to the wrong kind, 15 vertex anchored to the wrong kind,
-   16 adjacent faces with different surfaces, 17 consecutive boundary edges not separated by a node have different curves *)
+   16 adjacent faces with different surfaces, 17 consecutive boundary edges not separated by a node have different curves,
+   19 two different curves (stretches between consecutive nodes / loops without node) carry the same identifier *)
 Definition check17 (g : ginput) (st : state2) : N :=
   if negb (wf2b (nd st) (mem st) && fully_embedded st && all_closed st) then 2 else
   let m := mesh_darts st in
@@ -322,7 +337,10 @@ Definition check17 (g : ginput) (st : state2) : N :=
   if negb (forallb (fun d =>
              let x := next_bdry st (length m) (b st 1 d) in
              has_dim (anc st 4 (cid st PVertex x)) [0%Z] ||
-             opt_Z_eqb (anc st 5 (cid st PEdge d)) (anc st 5 (cid st PEdge x))) (bdry_darts st)) then 17 else 0.
+             opt_Z_eqb (anc st 5 (cid st PEdge d)) (anc st 5 (cid st PEdge x))) (bdry_darts st)) then 17 else
+  (* one identifier per curve: boundary edges carrying the same curve identifier lie on the same stretch *)
+  let keyed := map (fun d => (anc st 5 (cid st PEdge d), stretch_key st (length m) (length m) d d d)) (bdry_darts st) in
+  if negb (forallb (fun p => forallb (fun q => negb (opt_Z_eqb (fst p) (fst q)) || (snd p =? snd q)) keyed) keyed) then 19 else 0.
 
 Definition oracle_capture (ts : list tok) : list (list tok) :=
   match split_step ts with
